@@ -169,6 +169,7 @@ static Outcome run_shared_optional(const Scenario & sc)
   Outcome out; out.logs.resize(sc.consumers);
   SharedOptionalVariable<uint64_t> var;
   std::atomic<int> producers_done{0};
+  std::atomic<uint64_t> completed_seq{0};      // single-producer runs: seq of the last store() that has RETURNED
   StartGate gate;
   std::vector<std::vector<uint64_t>> consumed(sc.consumers);
   std::vector<std::thread> th;
@@ -176,7 +177,11 @@ static Outcome run_shared_optional(const Scenario & sc)
   for (int p = 0; p < sc.producers; ++p) {
     th.emplace_back([&, p]() {
         gate.arrive_and_wait();
-        for (uint64_t k = 1; k <= per; ++k) {var.store(((uint64_t)(p + 1) << 40) | k); maybe_yield();}
+        for (uint64_t k = 1; k <= per; ++k) {
+          var.store(((uint64_t)(p + 1) << 40) | k);
+          if (sc.producers == 1) {completed_seq.store(k, std::memory_order_release);}
+          maybe_yield();
+        }
         producers_done.fetch_add(1);
       });
   }
@@ -186,8 +191,18 @@ static Outcome run_shared_optional(const Scenario & sc)
         ReaderLog & L = out.logs[i];
         int idle_after_done = 0;
         while (true) {
+          // real-time order (one producer, one consumer): a store that had returned before this
+          // consume() started, and whose value nobody else can have taken, cannot be missed
+          const uint64_t done_before = (sc.producers == 1 && sc.consumers == 1) ? completed_seq.load(std::memory_order_acquire) : 0;
           std::optional<uint64_t> v = var.consume();
           ++L.reads;
+          if (!v && done_before > 0) {
+            uint64_t last_recv = consumed[i].empty() ? 0 : (consumed[i].back() & ((1ULL << 40) - 1));
+            if (done_before > last_recv && L.violation.empty()) {
+              L.kind = "optional_stored_value_not_delivered";
+              L.violation = vh::J().f("store_completed_seq", done_before).f("last_received_seq", last_recv).str();
+            }
+          }
           if (v) {consumed[i].push_back(*v); ++L.changes; idle_after_done = 0;} else if (producers_done.load() == sc.producers) {
             if (++idle_after_done > 3) {break;}
           }
@@ -197,6 +212,18 @@ static Outcome run_shared_optional(const Scenario & sc)
   }
   gate.open(sc.producers + sc.consumers);
   for (auto & t : th) {t.join();}
+  // quiescence: with every thread joined, an empty slot means the value of the globally last
+  // store - some producer's final store - was handed to a consumer
+  std::optional<uint64_t> left = var.consume();
+  bool some_final_consumed = false;
+  for (int i = 0; i < sc.consumers; ++i) {
+    for (uint64_t id : consumed[i]) {if ((id & ((1ULL << 40) - 1)) == per) {some_final_consumed = true;}}
+  }
+  if (!left && !some_final_consumed && per > 0) {
+    ReaderLog & L = out.logs[0];
+    if (L.violation.empty()) {L.kind = "optional_stored_value_not_delivered"; L.violation = vh::J().s("at", "quiescence").f("stores_per_producer", per).str();}
+  }
+  if (left) {consumed[0].push_back(*left);}
   // offline checker over the recorded history
   std::unordered_map<uint64_t, int> seen;
   for (int i = 0; i < sc.consumers; ++i) {
@@ -517,11 +544,64 @@ static Outcome run_rate_monitor(const Scenario & sc)
   return out;
 }
 
+// Slow source (period 1 s > the 0.5 s time-out): a heartbeat stamped 0.4 s before the stamp the
+// writer is about to feed times out only if it takes effect BEFORE that update; once update() /
+// evaluate() has returned, no sequential order of the calls leaves the rate at 0 or the report
+// STALE.  Checked by the writer thread itself right after its own call returns (real-time order).
+template<class Obj, class Feed, class Beat, class Check>
+static Outcome run_slow_source(const Scenario & sc, const std::string & cls, Obj & obj, Feed feed, Beat beat, Check check)
+{
+  Outcome out; out.logs.resize(1);
+  std::atomic<bool> done{false};
+  std::atomic<long long> upcoming{0};
+  StartGate gate;
+  std::vector<std::thread> th;
+  std::atomic<uint64_t> beats{0}, timeouts{0};
+  const int nbeat = std::max(1, sc.readers);
+  for (int b = 0; b < nbeat; ++b) {
+    th.emplace_back([&]() {
+        gate.arrive_and_wait();
+        while (!done.load(std::memory_order_acquire)) {
+          long long t = upcoming.load(std::memory_order_acquire);
+          if (t > 0) {if (beat(obj, Duration(t - 400000000LL))) {timeouts.fetch_add(1);} beats.fetch_add(1);}
+          maybe_yield();
+        }
+      });
+  }
+  th.emplace_back([&]() {
+      ReaderLog & L = out.logs[0];
+      gate.arrive_and_wait();
+      long long t = 5000000000LL;
+      const uint64_t n = std::min<uint64_t>(sc.ops, 20000);
+      for (uint64_t j = 0; j < n; ++j) {
+        t += 1000000000LL;
+        upcoming.store(t, std::memory_order_release);
+        feed(obj, Duration(t));
+        ++L.reads;
+        std::string why = check(obj, j);
+        if (!why.empty()) {
+          if (L.violation.empty()) {L.kind = "stale_after_fresh_data"; L.violation = vh::J().f("stamp_index", j).s("observed", why).str();}
+        } else {++L.changes;}
+        maybe_yield();
+      }
+      out.writer_ops = n;
+      done.store(true, std::memory_order_release);
+    });
+  gate.open(nbeat + 1);
+  for (auto & t : th) {t.join();}
+  out.aux_ops = beats.load();
+  out.op_counts[cls + "::feed(slow source)"] = out.writer_ops;
+  out.op_counts[cls + "::heartbeat(slow source)"] = beats.load();
+  out.op_counts[cls + "::heartbeat(slow source, timed out)"] = timeouts.load();
+  return out;
+}
+
 // ------------------------------------------------------------------------------ driver
 static const char * SCEN[] = {"SharedVariable", "SharedOptionalVariable", "OnlineAverage", "OnlineVariance",
   "CheckupEqualTo", "CheckupGreaterThan", "CheckupLowerThan", "CheckupReliability", "CheckupEqualToRate",
-  "CheckupGreaterThanRate", "RateMonitoring"};
-static const int NSCEN = 11;
+  "CheckupGreaterThanRate", "RateMonitoring", "RateMonitoring_slow_source", "CheckupEqualToRate_slow_source",
+  "CheckupGreaterThanRate_slow_source"};
+static const int NSCEN = 14;
 
 static void one_case(vh::Ctx & c, uint64_t idx)
 {
@@ -574,7 +654,44 @@ static void one_case(vh::Ctx & c, uint64_t idx)
       }
     case 8: out = run_rate_checkup<CheckupEqualToRate>(sc, "CheckupEqualToRate"); break;
     case 9: out = run_rate_checkup<CheckupGreaterThanRate>(sc, "CheckupGreaterThanRate"); break;
-    default: out = run_rate_monitor(sc); break;
+    case 10: out = run_rate_monitor(sc); break;
+    case 11: {
+        RateMonitoring mon(1.0);
+        out = run_slow_source(sc, "RateMonitoring", mon,
+            [](RateMonitoring & o, const Duration & d) {o.update(d);},
+            [](RateMonitoring & o, const Duration & d) {return o.timeout(d);},
+            [](RateMonitoring & o, uint64_t j) {
+              double r = o.getRate();
+              // W = 4: the rate is defined from the 5th stamp on and is exactly 1 Hz
+              if (j >= 4 && r != 1.0) {return std::string("getRate()=") + std::to_string(r) + " right after update()";}
+              return std::string();
+            });
+        break;
+      }
+    case 12: {
+        CheckupEqualToRate chk("imu", 1.0, 0.1);
+        out = run_slow_source(sc, "CheckupEqualToRate", chk,
+            [](CheckupEqualToRate & o, const Duration & d) {o.evaluate(d);},
+            [](CheckupEqualToRate & o, const Duration & d) {return !o.heartBeatCallback(d);},
+            [](CheckupEqualToRate & o, uint64_t j) {
+              Triple t = triple_of(o.getReport());
+              if (j >= 4 && !(t.status == (int)DiagnosticStatus::OK && t.value == "1")) {return show(t) + " right after evaluate()";}
+              return std::string();
+            });
+        break;
+      }
+    default: {
+        CheckupGreaterThanRate chk("imu", 1.0, 0.1);
+        out = run_slow_source(sc, "CheckupGreaterThanRate", chk,
+            [](CheckupGreaterThanRate & o, const Duration & d) {o.evaluate(d);},
+            [](CheckupGreaterThanRate & o, const Duration & d) {return !o.heartBeatCallback(d);},
+            [](CheckupGreaterThanRate & o, uint64_t j) {
+              Triple t = triple_of(o.getReport());
+              if (j >= 4 && !(t.status == (int)DiagnosticStatus::OK && t.value == "1")) {return show(t) + " right after evaluate()";}
+              return std::string();
+            });
+        break;
+      }
   }
   g_yield_permille.store(0);
 
@@ -607,7 +724,7 @@ static void one_case(vh::Ctx & c, uint64_t idx)
 
 int main(int argc, char ** argv)
 {
-  return vh::run(argc, argv, "C19", {176, 1760}, one_case, [](vh::Ctx & c) {
+  return vh::run(argc, argv, "C19", {224, 2240}, one_case, [](vh::Ctx & c) {
       c.count("hook.Checkup::setDiagnostic_", g_hook_hits[0].load());
       c.count("hook.CheckupRate::evaluate", g_hook_hits[1].load());
       c.count("hook.CheckupRate::heartBeatCallback", g_hook_hits[2].load());
